@@ -101,14 +101,18 @@ impl<T> ChannelSlots<T> {
         }
 
         // At the end of our rope for simple channel allocation; fall back to finding
-        // one that has been previously freed.
-        let channel_id = self.freed_channel_ids.pop().context(ExhaustedChannelIdsSnafu)?;
-        match self.slots.entry(channel_id) {
-            Entry::Occupied(_) => unreachable!("free channel id cannot be occupied"),
-            Entry::Vacant(entry) => {
-                let (t, u) = make_entry(channel_id)?;
-                entry.insert(t);
-                Ok(u)
+        // one that has been previously freed. An ID in the freed set may be in use again
+        // (it was requested explicitly, or the counter above caught up with it after
+        // it was freed); skip those.
+        loop {
+            let channel_id = self.freed_channel_ids.pop().context(ExhaustedChannelIdsSnafu)?;
+            match self.slots.entry(channel_id) {
+                Entry::Occupied(_) => continue,
+                Entry::Vacant(entry) => {
+                    let (t, u) = make_entry(channel_id)?;
+                    entry.insert(t);
+                    return Ok(u);
+                }
             }
         }
     }
